@@ -6,6 +6,8 @@ package c03
 import (
 	"encoding/json"
 	"fmt"
+	"net/http"
+	"net/http/httptest"
 	"sort"
 	"strings"
 	"testing"
@@ -246,7 +248,7 @@ func TestCoversDeep(t *testing.T) { vkit.Check(t, genDeep, runDeep) }
 // AuthCase is one authorization decision with every conjunct drawn independently.
 type AuthCase struct {
 	Lic      int    `json:"lic"`      // license version 1..3
-	Contract string `json:"contract"` // own, other (known second contract), unknown
+	Contract string `json:"contract"` // own, other (known second contract), unknown, http-allowed / http-refused / http-nostate (HTTP contract provider)
 	SigOK    bool   `json:"sigok"`
 	MasterOK bool   `json:"masterok"`
 	Perm     uint8  `json:"perm"`
@@ -279,7 +281,7 @@ func genAuth(t *rapid.T) AuthCase {
 	for i, n := 0, rapid.SampledFrom([]int{0, 1, 1, 1, 2}).Draw(t, "nbreak"); i < n; i++ {
 		switch rapid.IntRange(0, 8).Draw(t, "break") {
 		case 0:
-			c.Contract = rapid.SampledFrom([]string{"other", "unknown"}).Draw(t, "contract")
+			c.Contract = rapid.SampledFrom([]string{"other", "unknown", "http-refused", "http-nostate", "http-allowed"}).Draw(t, "contract")
 		case 1:
 			c.SigOK = false
 		case 2:
@@ -321,7 +323,22 @@ type env struct {
 	b      *vkit.Broker
 	other  license.License // second, known contract (same cipher)
 	unk    license.License // contract nobody knows
+	http   map[string]license.License // contracts served by the HTTP contract provider, by state
 	banned map[string]bool
+}
+
+// contractServer answers the HTTP contract provider: /<id> -> {"id":..,"master":1,"sign":..,"state":..}
+func contractServer(byID map[uint32]string) *httptest.Server {
+	return httptest.NewServer(http.HandlerFunc(func(w http.ResponseWriter, r *http.Request) {
+		var id uint32
+		fmt.Sscanf(strings.TrimPrefix(r.URL.Path, "/"), "%d", &id)
+		if body, ok := byID[id]; ok {
+			w.Header().Set("Content-Type", "application/json")
+			w.Write([]byte(body))
+			return
+		}
+		w.WriteHeader(404)
+	}))
 }
 
 var envs = map[int]*env{}
@@ -352,8 +369,20 @@ func getEnv(v int) *env {
 	if err != nil {
 		panic(err)
 	}
-	e := &env{b: b, other: second(b.Lic, 1, 7), unk: second(b.Lic, 2, 9), banned: map[string]bool{}}
-	b.S.VerifSetContracts(&multi{ps: []contract.Provider{contract.NewSingleContractProvider(b.Lic, usage.NewNoop()), contract.NewSingleContractProvider(e.other, usage.NewNoop())}})
+	e := &env{b: b, other: second(b.Lic, 1, 7), unk: second(b.Lic, 2, 9), banned: map[string]bool{}, http: map[string]license.License{}}
+	byID := map[uint32]string{}
+	for i, st := range []struct {
+		name, state string
+	}{{"http-allowed", `,"state":1`}, {"http-refused", `,"state":2`}, {"http-nostate", ``}} {
+		l := second(b.Lic, uint32(10+i), uint32(20+i))
+		e.http[st.name] = l
+		byID[l.Contract()] = fmt.Sprintf(`{"id":%d,"master":%d,"sign":%d%s}`, l.Contract(), l.Master(), l.Signature(), st.state)
+	}
+	hp := contract.NewHTTPContractProvider(b.Lic, usage.NewNoop())
+	if err := hp.Configure(map[string]interface{}{"url": contractServer(byID).URL + "/", "interval": float64(3600000)}); err != nil {
+		panic(err)
+	}
+	b.S.VerifSetContracts(&multi{ps: []contract.Provider{contract.NewSingleContractProvider(b.Lic, usage.NewNoop()), contract.NewSingleContractProvider(e.other, usage.NewNoop()), hp}})
 	envs[v] = e
 	return e
 }
@@ -366,6 +395,8 @@ func runAuth(c AuthCase) vkit.Result {
 		lic = e.other
 	case "unknown":
 		lic = e.unk
+	case "http-allowed", "http-refused", "http-nostate":
+		lic = e.http[c.Contract]
 	}
 	k := security.Key(make([]byte, 24))
 	k.SetSalt(c.Salt)
@@ -423,7 +454,7 @@ func runAuth(c AuthCase) vkit.Result {
 		return vkit.Result{Excluded: true, Labels: []string{"unspecified:#-request-vs-exact-target"}}
 	}
 	conj := map[string]bool{
-		"decrypts": c.Garbage == 0, "not-expired": c.Expiry != "past", "not-banned": !e.banned[enc], "contract-known": c.Contract != "unknown",
+		"decrypts": c.Garbage == 0, "not-expired": c.Expiry != "past", "not-banned": !e.banned[enc], "contract-allowed": c.Contract != "unknown" && c.Contract != "http-refused" && c.Contract != "http-nostate",
 		"signature": c.SigOK, "master": c.MasterOK, "permission": c.Perm&c.Need == c.Need, "covers": cov,
 	}
 	want := true
